@@ -12,7 +12,9 @@
    raw      = oracle: diagnostics of the everything-enabled run over the analysed files:
               <file hex>:<type>:<line>:<col>[:<ref file hex>] comma separated ("_" empty)
    Answer of c17.filter: <model>\t<spec>\t<classes>;  of c17.handled: <mask>;
-   of c17.variant (any line): the five booleans of the model variant in use (regexp gate coupled dead dup);
+   of c17.sites (case + re table): S=<mask> A=<mask> (per file: scanned by the directory walk / accepted by the per-file
+   predicate) for model and spec, class ignore_sites;
+   of c17.variant (any line): the six booleans of the model variant in use (regexp gate coupled dead dup sites);
    of c17.tojson (a client cfg): the same intent written as luahelper.json (Config.to_json of the variant in use) *)
 
 let split c s = String.split_on_char c s
@@ -39,7 +41,8 @@ let parse_json s =
   | _ -> failwith "bad json cfg"
 
 let slash = n_of_int 47
-(* canonical subject list shared with the Go oracle leg c17.re: absolute names, relative names, relative folders *)
+(* canonical subject list shared with the Go oracle leg c17.re: absolute names, relative names, "/" ^ relative names,
+   relative folders *)
 let ancestors_of (rel : n list) : n list list =
   let rec go pre rest acc = match rest with
     | [] -> List.rev acc
@@ -48,7 +51,7 @@ let ancestors_of (rel : n list) : n list list =
 let subjects root files =
   let abs = List.map (fun f -> root @ (slash :: f)) files in
   let dirs = List.fold_left (fun acc f -> List.fold_left (fun a d -> if List.mem d a then a else a @ [d]) acc (ancestors_of f)) [] files in
-  abs @ files @ dirs
+  abs @ files @ List.map (fun f -> slash :: f) files @ dirs
 
 let parse_re root files s =
   let subs = Array.of_list (subjects root files) in
@@ -80,16 +83,18 @@ let show_diags l =
 
 (* which variant of the model: by default the one the translator derived from the code (Tie.fixes_now: one boolean per
    fix: commit, each read off the Go sources on every run).  C17_FIXED overrides: "1" = deployed (all repairs),
-   "0" = the original code, "r1" = the code after round 1, or five 0/1 characters (regexp gate coupled dead dup) *)
+   "0" = the original code, "r1" = the code after round 1, "r2" = after round 2 (before the two ignore sites were made
+   one), or six 0/1 characters (regexp gate coupled dead dup sites) *)
 let fx =
   match (try Some (Sys.getenv "C17_FIXED") with Not_found -> None) with
   | None -> fixes_now
   | Some "1" -> deployed
   | Some "0" -> code_original
   | Some "r1" -> code_round1
-  | Some s when String.length s = 5 ->
+  | Some "r2" -> code_round2
+  | Some s when String.length s = 6 ->
     { fx_regexp = (s.[0] = '1'); fx_gate = (if s.[1] = '1' then gate_types_fixed else special_types); fx_coupled = (s.[2] = '1'); fx_dead = (s.[3] = '1');
-      fx_dup = (s.[4] = '1') }
+      fx_dup = (s.[4] = '1'); fx_sites = (s.[5] = '1') }
   | Some s -> failwith ("bad C17_FIXED " ^ s)
 (* the analysed set and the spec column are computed with the regexp repair in (it never faults and agrees with the
    code whenever the code does not fault), so that they are meaningful for crash cases too *)
@@ -107,7 +112,7 @@ let parse line =
 
 let mask_of re_ok re_match p =
   match session fx_nofault re_ok p.json p.c0 false p.cs with
-  | Ok s -> String.concat "" (List.map (fun f -> if is_handled re_ok re_match s.s_g f then "1" else "0") p.files)
+  | Ok s -> String.concat "" (List.map (fun f -> if is_handled fx_nofault re_ok re_match s.s_g f then "1" else "0") p.files)
   | _ -> "-"
 
 let () = register "c17.handled" (fun line ->
@@ -125,7 +130,12 @@ let () = register "c17.filter" (fun line ->
     let rawl = plist parse_diag raws in
     let raw = (fun _ -> rawl) in
     let i = session_intent p.json p.c0 p.cs in   (* LocalRun is not part of the intent *)
-    let spec = show_diags (spec_shown re_ok re_match raw i p.root p.files) in
+    (* the raw oracle ran over the files the MODEL analyses; where the intent wants another set of files analysed the
+       demanded diagnostics cannot be read off it: the spec column names the demanded set instead (a deviation of the
+       class ignore_sites: "... or their analysis altogether") *)
+    let smask = String.concat "" (List.map (fun f -> if spec_handled re_ok re_match i f then "1" else "0") p.files) in
+    let spec = if smask = mask then show_diags (spec_shown re_ok re_match raw i p.root p.files)
+      else "ANALYSED=" ^ smask in
     (match session fx re_ok p.json p.c0 p.lr p.cs with
      | Ok s ->
        let g = s.s_g in
@@ -138,7 +148,29 @@ let () = register "c17.filter" (fun line ->
            if cls_coupled fx re_ok re_match g i p.root d then add "coupled_type";
            if cls_dead_flag re_ok re_match g i p.root d then add "dead_flag") rawl;
        if not (json_wf fx p.json) then add "dup_file_rule";
+       if cls_ignore_sites fx re_ok re_match g i p.files then add "ignore_sites";
        model ^ "\t" ^ spec ^ "\t" ^ (if !cls = [] then "-" else String.concat "," !cls)
+     | Fault Regexp -> "CRASH regexp\t" ^ spec ^ "\tbad_regex"
+     | Fault NilDeref -> "CRASH nil-map\t" ^ spec ^ "\tlocal_master_off"
+     | Fault _ -> "CRASH other\t" ^ spec ^ "\t-"
+     | OutOfFuel -> "OUT-OF-FUEL\t" ^ spec ^ "\t-")
+  | _ -> "BAD-CASE")
+
+(* the two ignore-for-analysis sites: per file, scanned by the walk (S) and accepted by the per-file predicate (A) *)
+let () = register "c17.sites" (fun line ->
+  let p = parse line in
+  match p.rest with
+  | re :: _ ->
+    let (re_ok, re_match) = parse_re p.root p.files re in
+    let bits f = String.concat "" (List.map (fun x -> if f x then "1" else "0") p.files) in
+    let i = session_intent p.json p.c0 p.cs in
+    let sm = bits (spec_handled re_ok re_match i) in
+    let spec = "S=" ^ sm ^ " A=" ^ sm in
+    (match session fx re_ok p.json p.c0 p.lr p.cs with
+     | Ok s ->
+       let g = s.s_g in
+       let model = "S=" ^ bits (is_handled fx re_ok re_match g) ^ " A=" ^ bits (need_handle fx re_ok re_match g) in
+       model ^ "\t" ^ spec ^ "\t" ^ (if cls_ignore_sites fx re_ok re_match g i p.files then "ignore_sites" else "-")
      | Fault Regexp -> "CRASH regexp\t" ^ spec ^ "\tbad_regex"
      | Fault NilDeref -> "CRASH nil-map\t" ^ spec ^ "\tlocal_master_off"
      | Fault _ -> "CRASH other\t" ^ spec ^ "\t-"
@@ -147,7 +179,7 @@ let () = register "c17.filter" (fun line ->
 
 let () = register "c17.variant" (fun _ ->
   String.concat "" (List.map (fun b -> if b then "1" else "0")
-                      [fx.fx_regexp; gate_covers fx; fx.fx_coupled; fx.fx_dead; fx.fx_dup]))
+                      [fx.fx_regexp; gate_covers fx; fx.fx_coupled; fx.fx_dead; fx.fx_dup; fx.fx_sites]))
 
 let show_names l = if l = [] then "_" else String.concat "," (List.map (fun x -> if x = [] then "-" else hex_of_bytes x) l)
 let show_ints l = if l = [] then "_" else String.concat "." (List.map (fun x -> string_of_int (int_of_n x)) l)
